@@ -45,6 +45,9 @@ def VModelLib (isLib : String → Bool) (row : String → Cell) (tl : TL) (ports
   ∀ i ∈ vInsts stmts, isLib i.ty = true → ∃ fs, cellFuns row i.ty = some fs ∧
     ∀ o ∈ outConn tl (sigDecls stmts) i, ∀ f, fs[o.1]? = some f → σ o.2 = f (libInVals tl σ i (row i.ty).inNames.length)
 
+/-- the library as a predicate on cell types -/
+def libHas (lib : Lib) (ty : String) : Bool := (lib.find ty).isSome
+
 /-- no library instance is a state element by its kind name, and no library cell is called like a port / fork / constant node -/
 def libCleanB (lib : Lib) (stmts : List Stmt) : Bool :=
   (lib.find "input").isNone && (lib.find "output").isNone && (lib.find forkKind).isNone &&
